@@ -7,6 +7,7 @@
 import Aqv.Lemmas.ConsensusBatch
 import Aqv.Lemmas.ConsensusUncles
 import Aqv.Model.ConsensusGen
+import Aqv.Gen.UncleExemptions
 import Aqv.Lemmas.Translated.Params
 namespace Aqv.Props.C13
 open Aqv.Consensus
@@ -270,6 +271,38 @@ theorem verifyUncles_iff_partial (cfg : Config) (sealBad : Header → Bool) (cha
   show UnclesValid Gen.diffParams cfg sealBad chain block ↔ _
   rw [gen_constants_are_the_statements.1]
 
+/-- T-gen: the exemption table the model uses is the one in the source now (go/ast over `VerifyUncles`: three pairs keyed by
+    the including block's hash, two by the uncle's parent hash, three by the uncle's hash; one threshold 15000 guarding both chains). -/
+theorem gen_exemptions_are_the_models :
+    Aqv.Gen.UncleExemptions.dup = dupExemptions ∧ Aqv.Gen.UncleExemptions.danglingParent = danglingParentExemptions ∧
+    Aqv.Gen.UncleExemptions.danglingHash = danglingHashExemptions ∧ Aqv.Gen.UncleExemptions.threshold = 15000 ∧
+    Aqv.Gen.UncleExemptions.guards = 2 := by decide
+
+/-- **uncle sets accepted iff valid-or-grandfathered, at ALL heights**: `VerifyUncles` accepts exactly when the declarative
+    rules hold, where — while the loop variable `number` is not above the generated threshold 15000 — an already rewarded
+    uncle is tolerated iff (block hash, uncle number) is one of the generated pairs, and a dangling uncle ends the check
+    with acceptance iff (uncle parent hash, number) or (uncle hash, number) is one of the generated pairs.  For every ordered
+    schedule (in particular mainnet, see the corollary); uncle timestamps below 2^64, no hash cycle, ancestors within the gas cap.
+    The clause is not tied to the chain id — that is known finding 2 (`uncle_exemption_witness`), kept as is. -/
+theorem verifyUncles_iff_with_exemptions (cfg : Config) (sealBad : Header → Bool) (chain : Chain) (block : Block)
+    (hord : cfg.ordered = true)
+    (hgas : ∀ a ∈ ancestorsOf chain 7 block.header.parentHash (subU64 block.header.number 1), a.header.gasLimit < two63)
+    (hu : ∀ u ∈ block.uncles, u.parentHash ≠ block.header.hash ∧ u.time < two64) :
+    verifyUncles (genEnv cfg 0 sealBad) chain block = none ↔ UnclesValidEx Spec.diffParams cfg sealBad chain block := by
+  have := verifyUncles_iff_ex_aux (genEnv cfg 0 sealBad) chain block gen_constants_are_the_statements.2 hord hgas
+    (fun u hu' => ⟨(hu u hu').1, (hu u hu').2⟩)
+  rw [this]
+  show UnclesValidEx Gen.diffParams cfg sealBad chain block ↔ _
+  rw [gen_constants_are_the_statements.1]
+
+/-- … on the generated mainnet schedule. -/
+theorem verifyUncles_iff_with_exemptions_mainnet (sealBad : Header → Bool) (chain : Chain) (block : Block)
+    (hgas : ∀ a ∈ ancestorsOf chain 7 block.header.parentHash (subU64 block.header.number 1), a.header.gasLimit < two63)
+    (hu : ∀ u ∈ block.uncles, u.parentHash ≠ block.header.hash ∧ u.time < two64) :
+    verifyUncles (genEnv (cfgOf Aqv.Gen.Params.mainnet) 0 sealBad) chain block = none ↔
+      UnclesValidEx Spec.diffParams (cfgOf Aqv.Gen.Params.mainnet) sealBad chain block :=
+  verifyUncles_iff_with_exemptions _ sealBad chain block (builtin_schedules_ordered _ (by decide)) hgas hu
+
 /-- from height 15009 on the historic exemptions are out of reach, whatever the chain reader returns. -/
 theorem uncle_window_high_blocks (chain : Chain) (block : Block) (h1 : 15009 ≤ block.header.number) (h2 : block.header.number < two64) :
     15000 < (gatherFamily chain 7 block.header.parentHash (subU64 block.header.number 1) { ancestors := [], pastUncles := [], number := 0 }).number := by
@@ -431,6 +464,17 @@ example : verifyUncles (genEnv exCfg 0 (fun _ => false)) exChain exBlock = none 
 example : UnclesValid Spec.diffParams exCfg (fun _ => false) exChain exBlock := by decide
 example : verifyUncles (genEnv exCfg 0 (fun _ => false)) exChain { exBlock with uncles := [exUncle, exUncle] } = some .tooManyUncles := by decide
 example : verifyUncles (genEnv exCfg 0 (fun _ => false)) exChain { exBlock with uncles := [exB2.header] } = some .uncleIsAncestor := by decide
+
+-- `verifyUncles_iff_with_exemptions`: a low block with a listed dangling pair satisfies the grandfathered rules (and an unlisted one does not)
+example :
+    let fake : Header := { hash := 77, parentHash := 0x6b818656fb5059ab4dd070e2c2822a7774065090e74ff31515764212c88e2923, number := 14003,
+                           time := 0, difficulty := 0, gasLimit := 0, gasUsed := 0, extraLen := 0 }
+    let block : Block := { header := { hash := 10, parentHash := 9, number := 14010, time := 5000, difficulty := 46039386, gasLimit := 4712388, gasUsed := 0, extraLen := 0 },
+                           uncles := [fake] }
+    let chain : Chain := { getHeader := fun _ _ => none, getBlock := fun _ _ => none }
+    verifyUncles (genEnv (cfgOf Aqv.Gen.Params.mainnet) 0 (fun _ => false)) chain block = none ∧
+    verifyUncles (genEnv (cfgOf Aqv.Gen.Params.mainnet) 0 (fun _ => false)) chain { block with uncles := [{ fake with number := 14002 }] } = some .danglingUncle := by
+  decide
 
 -- `coordinator_complete`: a permutation of 0..3
 example : coordinator (fun i => i * 10) 4 [2, 0, 3, 1] = [0, 10, 20, 30] := by decide
